@@ -13,13 +13,13 @@ PROPS = ["IsoVerif/Props/C16.lean", "IsoVerif/Props/C16PolyA.lean", "IsoVerif/Pr
          "IsoVerif/Props/C16Finder.lean", "IsoVerif/Props/C16MoveRef.lean", "IsoVerif/Props/C16FinderSpec.lean",
          "IsoVerif/Props/C16TailRecord.lean", "IsoVerif/Props/C16Concat.lean", "IsoVerif/Props/C16FinderChar.lean",
          "IsoVerif/Props/C16CutsN.lean", "IsoVerif/Props/C16TailExons.lean", "IsoVerif/Props/C16Pad.lean",
-         "IsoVerif/Props/C16NoExon.lean",
+         "IsoVerif/Props/C16NoExon.lean", "IsoVerif/Props/C16FinderMirror.lean",
          # the CIGAR walkers regenerated from the source (Gen/Loops.lean): refinement Gen.f = Model.f + headline theorems over Gen.f
          "IsoVerif/Lemmas/GenBase.lean", "IsoVerif/Lemmas/GenCigar.lean", "IsoVerif/Props/C16Gen.lean"]
 TARGETS = ["IsoVerif.Props.C16", "IsoVerif.Props.C16PolyA", "IsoVerif.Props.C16Record", "IsoVerif.Props.C16Finder",
            "IsoVerif.Props.C16MoveRef", "IsoVerif.Props.C16FinderSpec", "IsoVerif.Props.C16TailRecord",
            "IsoVerif.Props.C16Concat", "IsoVerif.Props.C16FinderChar", "IsoVerif.Props.C16CutsN",
-           "IsoVerif.Props.C16TailExons", "IsoVerif.Props.C16Pad", "IsoVerif.Props.C16NoExon", "IsoVerif.Lemmas.GenBase", "IsoVerif.Lemmas.GenCigar", "IsoVerif.Props.C16Gen"]
+           "IsoVerif.Props.C16TailExons", "IsoVerif.Props.C16Pad", "IsoVerif.Props.C16NoExon", "IsoVerif.Props.C16FinderMirror", "IsoVerif.Lemmas.GenBase", "IsoVerif.Lemmas.GenCigar", "IsoVerif.Props.C16Gen"]
 GEN_DEPS = ["Enums", "CigarClasses", "Prims", "LoopsRt", "LoopsCigar", "LoopsCigarOps"]
 LEVEL = "proof"
 RULE = ("exhaustive CIGARs (all 9 operation kinds: <=3 ops x lengths {1,2,3}, 4 ops x {1,2}; 5 ops over 7 kinds and 6 ops "
@@ -40,7 +40,11 @@ RULE = ("exhaustive CIGARs (all 9 operation kinds: <=3 ops x lengths {1,2,3}, 4 
         "AND their specifications on reads whose checked region is such a threshold input (split between aligned part "
         "and soft clip at every point, indels / N in the aligned part, trailing H); a case is non-trivial when the model returns a non-error value with at least one block "
         "(CIGAR ops) / a changed exon list or a non-zero count (polyA ops) and model == implementation; "
-        "distinct by (op, input)")
+        "distinct by (op, input); c16x: fake-terminal-exon reads (body, gap, 0/1/3/8 non-tail + 17..60 tail bases, optional soft-clipped "
+        "continuation; both ends) and SEQ '*' records through record_polya / find_polya_tail / find_polyt_head / detect_polya; the "
+        "pipeline oracle runs the option set `novel_unspliced` + one of 7 further sets chosen by the seed (thorough: all 8) on the "
+        "synthetic BAM + 12 unusual record shapes (intergenic and genic), contig-border reads, two SEQ-less spliced reads and two "
+        "groups of ten fake-tail reads whose novel mono-exon model must lie inside the exons of their rows")
 TRUSTED = ["Gen/CigarClasses.lean (match / ins-del-match operation sets, polyA window constants) is extracted from "
            "src/common.py, src/polya_finder.py, isoquant.py on every run",
            "pysam: cigartuples / reference_start / get_blocks / reference_end per the SAM specification",
@@ -55,6 +59,10 @@ ASSUMPTIONS = ["CPython int semantics = Lean Int", "CIGAR operation lengths are 
                "record_removed_exons_are_tail: SAM-valid record (lengths >= 1, reference_start >= 0); "
                "count_polya_exons_spec / trimmed_exons_are_tail_exons: sorted disjoint exon list (what get_read_blocks yields)",
                "str.upper() maps exactly a-z to A-Z on the read alphabet (Lean Char.toUpper; is_a_flag_iff / is_t_flag_iff)",
+               "tail_on_retained_exon / tail_at_end_of_retained_exon: sorted disjoint exon list; the model is the REPAIRED "
+               "add_polya_info (external position cut down to the internal one) and the REPAIRED find_polyt_head window "
+               "(patches /tmp/b-c16x/fix_*.patch): VIOLATION on a tree without them",
+               "mirror_region / mirror_law_win: from_pos, to_pos >= 0, CIGAR lengths >= 0, reverse complement maps exactly T/t to A/a (hrc)",
                "min_polya_fraction is compared as the exact rational num/den; the harness uses dyadic fractions "
                "(1/4, 1/2, 3/4, 1) for which the float comparison of the code is exact"]
 
@@ -506,10 +514,21 @@ def tail_finder_cases(ctx):
         yield ("find_polyt_head", dict(kw))
         if i % 3 == 0:
             yield ("record_polya", {"s": s, "cigar": cig, "seq": seq, "mf": rng.choice([20, 40])})
+        if i % 20 == 0 and cig:
+            # SEQ '*' (legal SAM: minimap2 writes it for secondary alignments): `if not seq: return -1` (audit2-D G-C16-2)
+            ctx.count("seqless_record")
+            yield ("find_polya_tail", dict(kw, seq=""))
+            yield ("find_polyt_head", dict(kw, seq=""))
+            yield ("record_polya", {"s": s, "cigar": cig, "seq": "", "mf": 40})
+            yield ("detect_polya_default", {"s": s, "cigar": cig, "seq": ""})
     for i, (s, seq, cig) in enumerate(read_cases(ctx)):
         if G.query_len(cig) != len(seq) or i % 4:
             continue
         yield ("record_polya", {"s": s, "cigar": cig, "seq": seq, "mf": rng.choice([20, 40])})
+    for i in range(400 if quick else 4000):
+        seq, cig = G.fake_tail_read(rng, i % 2 == 0)
+        ctx.count("fake_tail_record")
+        yield ("record_polya", {"s": rng.choice([0, 5, rng.randint(0, 10 ** 6)]), "cigar": cig, "seq": seq, "mf": rng.choice([20, 40])})
 
 
 def boundary_cases(ctx):
@@ -851,29 +870,39 @@ def check_trim(before, rb, cb, info, ai_after, mf=None):
                 return "removed_exon_not_tail", "5' exon %s removed, internal polyT %s, max_fake %s" % (e, info[3], mf)
     pi = ai_after.polya_info
     new = [pi.external_polya_pos, pi.external_polyt_pos, pi.internal_polya_pos, pi.internal_polyt_pos]
-    # tail positions (reading: docs/C16.md)
+    # tail positions: "moves the recorded tail position onto the retained exon" (statement; no tolerance window).
+    # The removed exons are tail from the internal position on; the d read bases of the first removed exon that lie
+    # before it (d = max(0, internal - start of the first removed exon): 0 when the removed exons consist of tail, at
+    # most max_fake_terminal_exon_len and fewer than a third of that exon otherwise) are not tail and stay attached to
+    # the retained exon.  internal: exactly anchor + d; external: between the anchor and the internal position (it
+    # never lies beyond the point where the internal scan says the tail starts).  Theorems tail_on_retained_exon,
+    # tail_at_end_of_retained_exon (Props/C16PolyA.lean).
+    if a > 0:
+        anchor = before[n - a - 1][1]
+        d = max(0, info[2] - before[n - a][0]) if info[2] != -1 else 0
+        lo, hi = anchor, anchor + d
+        exact = hi
     for idx, name in ((0, "external_polya"), (2, "internal_polya")):
         old, nw = info[idx], new[idx]
         if a == 0 or old == -1:
             if nw != old:
                 return "tail_changed_without_trim", "%s %s -> %s" % (name, old, nw)
-        else:
-            anchor = before[n - a - 1][1]
-            room = max(0, old - before[n - a][0])
-            if not (anchor <= nw <= anchor + room):
-                return "tail_not_on_retained", "%s %s -> %s, retained exon ends at %s, removed part starts at %s" % (
-                    name, old, nw, anchor, before[n - a][0])
+        elif not (lo <= nw <= hi) or (idx == 2 and nw != exact):
+            return "tail_not_on_retained", "%s %s -> %s, retained exon ends at %s, removed part starts at %s, " \
+                "internal polyA found at %s" % (name, old, nw, anchor, before[n - a][0], info[2])
+    if t > 0:
+        anchor = before[t][0]
+        d = max(0, before[t - 1][1] - info[3]) if info[3] != -1 else 0
+        lo, hi = anchor - d, anchor
+        exact = lo
     for idx, name in ((1, "external_polyt"), (3, "internal_polyt")):
         old, nw = info[idx], new[idx]
         if t == 0 or old == -1:
             if nw != old:
                 return "tail_changed_without_trim", "%s %s -> %s" % (name, old, nw)
-        else:
-            anchor = before[t][0]
-            room = max(0, before[t - 1][1] - old)
-            if not (anchor - room <= nw <= anchor):
-                return "tail_not_on_retained", "%s %s -> %s, retained exon starts at %s, removed part ends at %s" % (
-                    name, old, nw, anchor, before[t - 1][1])
+        elif not (lo <= nw <= hi) or (idx == 3 and nw != exact):
+            return "tail_not_on_retained", "%s %s -> %s, retained exon starts at %s, removed part ends at %s, " \
+                "internal polyT found at %s" % (name, old, nw, anchor, before[t - 1][1], info[3])
     return None
 
 
@@ -893,9 +922,9 @@ def oracle_trim_unit(exons, info, mf):
 def oracle_trim_read(s, seq, cigar, mf):
     """real pysam segment, real PolyAFinder, real PolyAFixer"""
     C, AI, PF, PV = _impl()
-    if G.query_len(cigar) != len(seq) or not in_sam_domain(s, cigar):
+    if (seq and G.query_len(cigar) != len(seq)) or not in_sam_domain(s, cigar) or not cigar:
         return None
-    a = make_segment(s, cigar, seq)
+    a = make_segment(s, cigar, seq or None)      # seq "" = SEQ '*': the record carries no sequence
     ai = AI.AlignmentInfo(a)
     if not ai.read_exons:
         return None
@@ -932,7 +961,7 @@ def oracle_trim_read(s, seq, cigar, mf):
     if any(k == G.H for k, _ in cigar) and all(k != G.H for k, _ in cigar[1:-1]):
         bare = [[k, l] for k, l in cigar if k != G.H]
         try:
-            ai2 = AI.AlignmentInfo(make_segment(s, bare, seq))
+            ai2 = AI.AlignmentInfo(make_segment(s, bare, seq or None))
             ai2.add_polya_info(finder, fixer(mf))
         except Exception as ex:
             return "hard_clip_changes_result", "without H: %s: %s" % (type(ex).__name__, ex)
@@ -979,46 +1008,171 @@ EXCLUDED_RECORDS = [
 ]
 
 
-def oracle_pipeline(ctx, reads):
-    """reads: [(name, s, seq, cigar)] through the real pipeline (isoquant.py on a synthetic BAM): the run must
-    finish and the exons column of read_assignments.tsv must be a non-empty ordered terminal-trimmed part of the
-    SAM exons of the record"""
+# option sets of the pipeline oracle (audit2-D G-C16-3): (name, data_type, threads, extra CLI arguments).  The quick tier
+# runs `novel_unspliced` (the one in which the recorded tail position is visible as the end of a novel mono-exon model) and
+# one more set chosen by the seed; the thorough tier runs all of them.
+PIPE_CONFIGS = [
+    ("novel_unspliced", "nanopore", 1, ["--report_novel_unspliced", "true"]),
+    ("default", "nanopore", 1, []),
+    ("assembly", "assembly", 1, []),
+    ("pacbio_hm", "pacbio_ccs", 1, ["--high_memory"]),
+    ("loose_t3", "nanopore", 3, ["--matching_strategy", "loose"]),
+    ("exact_nosec", "nanopore", 1, ["--matching_strategy", "exact", "--no_secondary"]),
+    ("never_all", "nanopore", 1, ["--polya_requirement", "never", "--model_construction_strategy", "all"]),
+    ("nomodel_exons", "nanopore", 1, ["--no_model_construction", "--count_exons"]),
+]
+
+# legal-but-unusual record shapes (probe c16_pipeline_edges.py of audit2-D), placed once between genes and once inside a gene
+EDGE_CIGARS = {
+    "eqx_hs": "5H10S50=1X49=300N100M10S5H", "d_ins_at_N": "50M2D300N3I50M", "i_d_at_N": "50M2I300N2D50M",
+    "d_ends": "2D50M300N50M3D", "twoN": "50M100N200N50M", "leadN": "100N50M300N60M", "trailN": "50M300N60M100N",
+    "ionly": "50M100N5I100N50M300N70M", "donly": "50M100N5D100N50M300N70M", "s_mid": "50M5S50M300N80M",
+    "pad": "50M2P50M300N80M", "rev": "100M300N100M",
+}
+
+
+def parse_cigar(txt):
+    import re
+    return [[G.LETTER.index(o), int(n)] for n, o in re.findall(r"(\d+)([MIDNSHP=X])", txt)]
+
+
+def _ref_seq(ref, s, cig, clip_base="C"):
+    """read sequence of a record that follows the reference: aligned operations copy it, inserted / clipped bases are C"""
+    pos, out = s, []
+    for k, l in cig:
+        if k in (G.M, G.EQ, G.X):
+            out.append(ref[pos:pos + l])
+            pos += l
+        elif k in (G.D, G.N):
+            pos += l
+        elif k in (G.I, G.S):
+            out.append(clip_base * l)
+    return "".join(out)
+
+
+def extra_pipeline_records(ds):
+    """records added to a full pipeline run: [(name, chrom, s, cigar, seq or "" (SEQ '*'), flag)] + the two fake-tail groups
+    [(group, chrom, lo, hi)] whose novel mono-exon model must lie inside the exons of the reads"""
+    recs, groups = [], []
+    ref2 = ds.chroms["chr2"]
+    tx = ds.genes[0]["transcripts"][0][1]
+    p = 20000
+    for n, c in EDGE_CIGARS.items():
+        cig = parse_cigar(c)
+        recs.append(("ig_" + n, "chr2", p, cig, _ref_seq(ref2, p, cig), 16 if n == "rev" else 0))
+        p += 1500
+    gs = tx[0][0] - 1 + 5
+    for n, c in EDGE_CIGARS.items():
+        cig = parse_cigar(c)
+        recs.append(("g_" + n, "chr1", gs, cig, _ref_seq(ds.chroms["chr1"], gs, cig), 16 if n == "rev" else 0))
+    # SEQ '*' (legal: minimap2 secondary alignments): the finder and the trimming see no sequence
+    parts = []
+    for i, (a, b) in enumerate(tx):
+        if i:
+            parts.append([G.N, a - tx[i - 1][1] - 1])
+        parts.append([G.M, b - a + 1])
+    recs.append(("g_noseq", "chr1", tx[0][0] - 1, parts, "", 0))
+    recs.append(("ig_noseq", "chr2", 1000, parse_cigar("100M300N100M300N100M"), "", 0))
+    # contig borders
+    refe = ds.chroms["edge"]
+    c = parse_cigar("25S100M300N100M300N120M")
+    recs.append(("first_base_T", "edge", 0, c, "T" * 25 + _ref_seq(refe, 0, c)[25:], 0))
+    c = parse_cigar("120M300N100M300N100M40S")
+    s0 = len(refe) - 920
+    recs.append(("last_base_A", "edge", s0, c, _ref_seq(refe, s0, c)[:-40] + "A" * 40, 0))
+    c = parse_cigar("100M300N100M300N120M")
+    recs.append(("first_base_aligned_T", "edge", 0, c, "T" * 30 + _ref_seq(refe, 0, c)[30:], 0))
+    # fake terminal exon = aligned tail + soft-clipped tail (audit2-D G-C16-1): 31 aligned A + 30 clipped A behind a 299-base
+    # gap; the trimmed reads end at 6200.  Mirror image with T at the 5' end: the trimmed reads start at 12331.
+    for k in range(10):
+        st = 5000 + k
+        cig = [[G.M, 6200 - st], [G.N, 299], [G.M, 31], [G.S, 30]]
+        recs.append(("ftA_%d" % k, "chr2", st, cig, ref2[st:6200] + "A" * 61, 0))
+        en = 13500 - k
+        cig = [[G.S, 30], [G.M, 31], [G.N, 299], [G.M, en - 12330]]
+        recs.append(("ftT_%d" % k, "chr2", 12000, cig, "T" * 61 + ref2[12330:en], 0))
+    groups.append(("ftA", "chr2", 4000, 8000))
+    groups.append(("ftT", "chr2", 11000, 15000))
+    return recs, groups
+
+
+def oracle_pipeline(ctx, reads, config=None):
+    """reads: [(name, s, seq, cigar)] on chr1 through the real pipeline (isoquant.py on a synthetic BAM) under one option
+    set: the run must finish, write read_assignments.tsv, and the exons column must be a non-empty ordered
+    terminal-trimmed part of the SAM exons of the record; under --report_novel_unspliced every novel model over a
+    fake-tail group lies inside the exons of the group's reads (the recorded tail position IS on the retained exon)"""
     import pipeline as P
     from gen import synth
+    cfg = next(c for c in PIPE_CONFIGS if c[0] == (config or "default"))
     ds = synth.simple_dataset(seed=ctx.seed % 1000, n_chroms=1, genes_per_chrom=2, reads_per_tx=3, chrom_len=60000)
+    ds.add_chrom("chr2", 40000)
+    ds.add_chrom("edge", 5000)
     for name, s, seq, cig in reads:
         ds.add_read(name, "chr1", s, G.cigar_str(cig), seq=seq)
-    excluded = EXCLUDED_RECORDS if any(r[0] == "witness" for r in reads) else []
+    full = any(r[0] == "witness" for r in reads)
+    excluded = EXCLUDED_RECORDS if full else []
     for name, s, cig, seq, flag, _ in excluded:
         if seq is None:
             seq = "C" * sum(l for k, l in cig if k in (G.M, G.I, G.S, G.EQ, G.X))
         ds.add_raw_record(name, "chr1", s, cig, flag=flag, mapq=0 if flag & 4 else 60, seq=seq)
+    extra, groups = extra_pipeline_records(ds) if full else ([], [])
+    for name, chrom, s, cig, seq, flag in extra:
+        ds.add_raw_record(name, chrom, s, [tuple(x) for x in cig], flag=flag, seq=seq)
     d = P.scratch("isoverif_C16_")
     try:
         paths = ds.write(os.path.join(d, "data"))
-        rc, log = P.run_isoquant(os.path.join(d, "out"), P.std_args(paths))
+        rc, log = P.run_isoquant(os.path.join(d, "out"), P.std_args(paths, data_type=cfg[1], threads=cfg[2], extra=cfg[3]))
         if rc != 0:
             tail = [l for l in log.split("\n") if "Error" in l or "error" in l][-3:]
-            return "pipeline_crash", "rc=%s %s" % (rc, " | ".join(tail)[-400:])
+            return "pipeline_crash", "config %s rc=%s %s" % (cfg[0], rc, " | ".join(tail)[-400:])
         fs = P.out_files(os.path.join(d, "out"))
+        if "S.read_assignments.tsv" not in fs:
+            # an rc-0 run that does not write the table is a failure of the clause, not infrastructure trouble
+            return "pipeline_output_missing", "config %s: rc 0 but no S.read_assignments.tsv (files: %s)" % (cfg[0], sorted(fs)[:8])
         rows = {}
         for r in P.read_assignments(fs["S.read_assignments.tsv"]):
             rows.setdefault(r["read_id"], []).append(r)
         seen = 0
-        for name, s, seq, cig in reads:
+        norow = []
+        for name, s, seq, cig in [(r[0], r[1], r[2], r[3]) for r in reads] + [(e[0], e[2], e[4], e[3]) for e in extra]:
             exp, _, _ = sam_exons(s, cig)
+            if not rows.get(name):
+                norow.append(name)
             for r in rows.get(name, []):
                 seen += 1
                 got = [[int(x) for x in e.split("-")] for e in r["exons"].split(",") if e and e != "."]
                 if not got:
-                    return "pipeline_exons_empty", "%s: %s" % (name, r["exons"])
+                    return "pipeline_exons_empty", "config %s %s: %s" % (cfg[0], name, r["exons"])
                 ok = any(exp[i:i + len(got)] == got for i in range(len(exp)))
                 if not ok or not is_sd(got):
-                    return "pipeline_exons_vs_sam", "%s: column %s, SAM exons %s" % (name, got, exp)
+                    return "pipeline_exons_vs_sam", "config %s %s: column %s, SAM exons %s" % (cfg[0], name, got, exp)
         for name, s, cig, seq, flag, expect in excluded:
             if expect == "no_row" and rows.get(name):
                 return "pipeline_row_for_record_without_exon", "%s: %s" % (name, rows[name][0]["exons"])
-        ctx.extra["pipeline_reads_checked"] = seen
+        models = {}
+        if groups and "--report_novel_unspliced" in cfg[3]:
+            if "S.transcript_models.gtf" not in fs:
+                return "pipeline_output_missing", "config %s: no S.transcript_models.gtf" % cfg[0]
+            gtf = [g for g in P.parse_gtf(fs["S.transcript_models.gtf"]) if g["feature"] == "transcript"]
+            for gname, chrom, lo, hi in groups:
+                ex = [[int(x) for x in e.split("-")] for n, rr in rows.items() if n.startswith(gname + "_")
+                      for r in rr for e in r["exons"].split(",")]
+                if not ex:
+                    return "pipeline_group_without_rows", "config %s: no row for the reads %s_*" % (cfg[0], gname)
+                a, b = min(e[0] for e in ex), max(e[1] for e in ex)
+                ms = [g for g in gtf if g["chr"] == chrom and lo <= g["start"] and g["end"] <= hi]
+                models[gname] = [[g["start"], g["end"], g["strand"]] for g in ms]
+                if not ms:
+                    return "pipeline_group_without_model", "config %s: ten reads %s_* (%s-%s) give no transcript model" % (
+                        cfg[0], gname, a, b)
+                for g in ms:
+                    if g["start"] < a or g["end"] > b:
+                        return "pipeline_model_beyond_reads", "config %s: model %s %s-%s %s, but the exons of the reads %s_* " \
+                            "(after trimming the fake tail exon) cover %s-%s only" % (
+                                cfg[0], g["attrs"].get("transcript_id"), g["start"], g["end"], g["strand"], gname, a, b)
+        ctx.extra.setdefault("pipeline_runs", {})[cfg[0]] = {"rows_checked": seen, "records_without_row": norow[:12],
+                                                             "group_models": models}
+        ctx.extra["pipeline_reads_checked"] = ctx.extra.get("pipeline_reads_checked", 0) + seen
         ctx.extra["pipeline_excluded_records"] = {r[0]: ("row" if rows.get(r[0]) else "no row") for r in excluded}
         return None
     finally:
@@ -1106,6 +1260,11 @@ def oracle(ctx, disagreements, broken):
             yield (ctx.rng.randint(0, 10 ** 6), seq, c)
         for k in range(60 if quick else 600):        # a `P` inside the part the backward / forward walk visits
             yield (ctx.rng.randint(0, 10 ** 6),) + pad_tail_read(ctx.rng, k % 2 == 0)
+        for k in range(150 if quick else 1500):      # fake terminal exon = aligned tail (+ soft-clipped tail), both ends
+            yield (ctx.rng.randint(0, 10 ** 6),) + G.fake_tail_read(ctx.rng, k % 2 == 0)
+        for k in range(60 if quick else 600):        # SEQ '*'
+            seq, c = G.finder_read(ctx.rng) if k % 2 else G.tailed_read(ctx.rng)
+            yield (ctx.rng.randint(0, 10 ** 6), "", c)
     for s, seq, c in more_reads():
         n += 1
         r = oracle_trim_read(s, seq, c, 40)
@@ -1113,10 +1272,21 @@ def oracle(ctx, disagreements, broken):
             ctx.fail(r[0], {"check": "trim_read", "s": s, "seq": seq, "cigar": c, "mf": 40}, r[1])
             if len(ctx.failures) > 60:
                 break
-    # 3. once through the real pipeline
-    try:
-        reads = pipeline_reads(ctx)
-        r = oracle_pipeline(ctx, reads)
+    # 3. through the real pipeline: `novel_unspliced` + one option set chosen by the seed (thorough: every set)
+    reads = pipeline_reads(ctx)
+    if quick:
+        rot = PIPE_CONFIGS[1:]
+        configs = [PIPE_CONFIGS[0][0], rot[ctx.seed % len(rot)][0]]
+    else:
+        configs = [c[0] for c in PIPE_CONFIGS]
+    for config in configs:
+        try:
+            r = oracle_pipeline(ctx, reads, config)
+        except (OSError, ImportError) as ex:      # infrastructure trouble of the pipeline wrapper is not a verdict
+            ctx.notes.append("pipeline oracle (%s) skipped: %s: %s" % (config, type(ex).__name__, ex))
+            continue
+        except Exception as ex:                   # anything else (unreadable / incomplete output of an rc-0 run) is
+            r = ("pipeline_output_unreadable", "config %s: %s: %s" % (config, type(ex).__name__, ex))
         n += len(reads)
         if r:
             # narrow down to one read when possible
@@ -1126,9 +1296,9 @@ def oracle(ctx, disagreements, broken):
                     if oracle_trim_read(rd[1], rd[2], rd[3], 40):
                         culprit = rd
                         break
-            ctx.fail(r[0], {"check": "pipeline", "reads": [list(culprit)] if culprit else [list(x) for x in reads]}, r[1])
-    except Exception as ex:      # infrastructure trouble of the pipeline wrapper is not a verdict
-        ctx.notes.append("pipeline oracle skipped: %s: %s" % (type(ex).__name__, ex))
+            ctx.fail(r[0], {"check": "pipeline", "config": config,
+                            "reads": [list(culprit)] if culprit else [list(x) for x in reads]}, r[1])
+            break
     ctx.extra["oracle_cases"] = n
 
 
@@ -1142,5 +1312,5 @@ def replay(ctx, failure):
     if chk == "trim_read":
         return oracle_trim_read(inp["s"], inp["seq"], inp["cigar"], inp["mf"]) is not None
     if chk == "pipeline":
-        return oracle_pipeline(ctx, [tuple(x) for x in inp["reads"]]) is not None
+        return oracle_pipeline(ctx, [tuple(x) for x in inp["reads"]], inp.get("config")) is not None
     return False
